@@ -26,7 +26,9 @@ def relayout(rng, lexemes):
     """lexemes: [(ty, text bytes)] of the original (blanks/comments included).  Returns a source with
     the same kept-token sequence (up to the length of NEWLINE runs) and a different layout."""
     kept = [(ty, tx) for ty, tx in lexemes if ty not in (SPACE, COMMENT)]
-    crlf = rng.random() < 0.35
+    # line ends: all LF, all CR LF, or MIXED within one file - each line break on its own, the first one forced either way (round 16:
+    # C12-I, CR LF folded only when the FIRST line break of the file is CR LF)
+    crlf = rng.choice(["lf", "lf", "crlf", "mixed-lf-first", "mixed-crlf-first"])
     out = bytearray()
     prev = None          # (text, ty) of the previous kept token if it directly precedes
     before_prev = 0
@@ -107,8 +109,19 @@ def relayout(rng, lexemes):
     if res.endswith(b"\n") and rng.random() < 0.3 and kept and kept[-1][0] == NEWLINE:
         res = res[:-1]
         # removing the last line break must not glue a line comment to EOF issues: fine, comment runs to EOF
-    if crlf:
+    if crlf == "crlf":
         res = res.replace(b"\n", b"\r\n")
+    elif crlf != "lf":
+        parts = res.split(b"\n")
+        buf = bytearray()
+        for k, part in enumerate(parts[:-1]):
+            buf += part
+            if k == 0:
+                buf += b"\n" if crlf == "mixed-lf-first" else b"\r\n"
+            else:
+                buf += b"\r\n" if rng.random() < 0.6 else b"\n"
+        buf += parts[-1]
+        res = bytes(buf)
     return res
 
 
@@ -191,6 +204,14 @@ def run(res, b, tier, seed):
                 members.append(c)
         # blank and comment-only lines in FRONT of the program (two and more: round 9, C12-B - only one leading line break skipped
         # before an import section)
+        # mixed line ends, directed: only the first line break LF / only the first CR LF / a blank LF line in front of a CR LF file
+        if b"\n" in src.rstrip(b"\n"):
+            first, rest = src.split(b"\n", 1)
+            for vname, v in (("lf-then-crlf", first + b"\n" + rest.replace(b"\n", b"\r\n")), ("crlf-then-lf", first + b"\r\n" + rest),
+                             ("blank-lf-then-crlf", b"\n" + src.replace(b"\n", b"\r\n"))):
+                c = pipeline.Case("p%d_%s" % (pi, vname), {"main.tsh": v}, meta=dict(orig=False, pi=pi))
+                cases.append(c)
+                members.append(c)
         if pi % 3 == 0 or b"import" in src:
             for vname, v in (("lead2", b"\n\n" + src), ("lead-comments", b"// header\n// second line\n\n" + src), ("lead-block", b"/* header */\n\t\n/* x */\n" + src),
                              ("lead-crlf", b"\r\n\r\n\r\n" + src)):
